@@ -21,15 +21,21 @@ def make(job):
         rng = random.Random(seed)
         return X.paren(X.fill(X.random_shape(rng, depth), rng)), True
     if kind == "wide":
+        # 10-14 bracketed groups at ONE nesting level: a sum of products (or an .or. of .and.s) of groups
         _, seed = job
         rng = random.Random(seed)
         n = rng.randrange(10, 15)
-        ops = [rng.choice([X.OAdd, X.OMul, X.OAnd, X.ORel, X.OCat, X.OPow, X.OOr]) for _ in range(n - 1)]
-        e = ("p", X.fill(X.random_shape(rng, 1), rng)) if rng.random() < 0.5 else ("a", "arr(i+%d)" % 0)
-        for k, c in enumerate(ops):
-            r = rng.choice([("a", "arr(i+%d)" % (k + 1)), ("a", "f(x, y-%d)" % (k + 1)),
-                            ("p", ("b", X.OAdd, "+", ("a", "a%d" % (k + 1)), ("a", "b%d" % (k + 1))))])
-            e = ("b", c, rng.choice(X.SPELL[c])[0], e, r)
+        lo, hi = rng.choice([(X.OAdd, X.OMul), (X.OOr, X.OAnd), (X.OCat, X.OCat), (X.OAdd, X.OAdd)])
+        groups = [rng.choice([("a", "arr(i+%d)" % k), ("a", "f(x, y-%d)" % k),
+                              ("p", ("b", X.OAdd, "+", ("a", "a%d" % k), ("a", "b%d" % k)))]) for k in range(n)]
+        e, term = None, groups[0]
+        for g in groups[1:]:
+            if rng.random() < 0.5 and lo != hi:
+                term = ("b", hi, rng.choice(X.SPELL[hi])[0], term, g)
+            else:
+                e = term if e is None else ("b", lo, rng.choice(X.SPELL[lo])[0], e, term)
+                term = g
+        e = term if e is None else ("b", lo, rng.choice(X.SPELL[lo])[0], e, term)
         return X.paren(e), True
     if kind == "raw":
         _, seed, depth = job
